@@ -17,7 +17,8 @@ Record rcfg := RCfg {
   c_nack : list err;          (* ... around parse_interest in the Nack branch *)
   c_interest : list err;      (* ... around parse_interest *)
   c_data : list err;          (* ... around parse_data *)
-  c_frag_guard : bool;        (* `if not data: return` after data = fragment *)
+  c_frag_guard : N;           (* after data = fragment: 0 = nothing, 1 = `if not data: return` (None or empty),
+                                 2 = `if data is None: return` *)
   c_fragtl : list err;        (* except tuple around parse_tl_num(fragment); [] = outside any try *)
   c_nack_default : option N   (* reason given to a Nack header without NackReason: None as of this
                                  tree (dagger 10, owned by C10), Some 0 with C10's fix *)
@@ -74,10 +75,10 @@ Definition classify (cfg : rcfg) (typ : N) (data : bytes) : action :=
       let frag := match field_value ndnlp_v2_LpPacketValue vs LP_FRAGMENT with VBytes b => Some b | _ => None end in
       (* data = fragment ; [if not data: return] ; typ, _ = parse_tl_num(data) *)
       match frag with
-      | None => if c_frag_guard cfg then ADrop 6 else
+      | None => if 1 <=? c_frag_guard cfg then ADrop 6 else
                 if catches (c_fragtl cfg) EType then ADrop 7 else ARaise EType   (* None[0] *)
       | Some d =>
-          if c_frag_guard cfg && match d with [] => true | _ => false end then ADrop 6
+          if (c_frag_guard cfg =? 1) && match d with [] => true | _ => false end then ADrop 6
           else try_parse (c_fragtl cfg) 7 (tl_dec d) (fun '(t, _) => dispatch cfg nack token t d)
       end)
   else dispatch cfg None None typ data.
